@@ -35,6 +35,7 @@ def mkcfg(kind, parent, req, **kw):
         "dur": arr("dur", 1), "out": arr("out", "ok"),
         "sdur": arr("sdur", 0), "cdur": arr("cdur", 0), "scdur": arr("scdur", 0),
         "horizon": kw.get("horizon", 0), "ucancel": kw.get("ucancel", -1),
+        "cwait": arr("cwait", 0), "preshut": bool(kw.get("preshut", False)),
     }
 
 
@@ -159,6 +160,12 @@ def admissible(cfg):
     for j in jobs_of(cfg):
         if cfg["sdur"][j - 1] < 0 and cfg["stmo"][cfg["parent"][j - 1] - 1] < 0:
             return False
+    for j, other in enumerate(cfg.get("cwait", []), start=1):
+        if other:
+            par = cfg["parent"][j - 1]
+            if cfg["kind"][j - 1] != "job" or cfg["kind"][other - 1] != "job" or \
+                    cfg["parent"][other - 1] != par or cfg["req"][other - 1] or cfg["win"][par - 1]:
+                return False
     return True
 
 
